@@ -3,6 +3,7 @@
 package csproto
 
 import (
+	"errors"
 	"reflect"
 
 	"github.com/gogo/protobuf/gogoproto"
@@ -43,6 +44,50 @@ func c12DynExts() []protoreflect.ExtensionType {
 	}
 	return out
 }
+
+// c12NativeRange: RangeExtensions visits exactly the extensions that are set - the same sequence of field numbers
+// as the owning (v2) runtime's own Range - for every subset of four extensions, and returns at once, with the
+// callback's error, when the callback fails at its k-th call
+func c12NativeRange() {
+	exts := c12DynExts()
+	vals := []interface{}{int32(7), "x", true, []byte{1}}
+	for mask := 0; mask < 16; mask++ {
+		m := &descriptorpb.FeatureSet{}
+		n := 0
+		for i, x := range exts {
+			if mask&(1<<i) != 0 {
+				verifAssert(SetExtension(m, x, vals[i]) == nil, "native: SetExtension of a scalar extension succeeds")
+				n++
+			}
+		}
+		want := map[int32]bool{}
+		proto.RangeExtensions(m, func(t protoreflect.ExtensionType, v interface{}) bool {
+			want[int32(t.TypeDescriptor().Number())] = true
+			return true
+		})
+		got := map[int32]bool{}
+		calls := 0
+		err := RangeExtensions(m, func(value interface{}, name string, field int32) error {
+			calls++
+			got[field] = true
+			return nil
+		})
+		verifAssert3(err == nil, calls == n, reflect.DeepEqual(got, want), "native: RangeExtensions visits exactly the extensions that are set, each once")
+		for k := 1; k <= n; k++ {
+			calls = 0
+			err = RangeExtensions(m, func(value interface{}, name string, field int32) error {
+				calls++
+				if calls == k {
+					return errC12Stop
+				}
+				return nil
+			})
+			verifAssert2(err == errC12Stop, calls == k, "native: RangeExtensions returns immediately with the callback's error")
+		}
+	}
+}
+
+var errC12Stop = errors.New("c12: stop")
 
 // c12NativeScalars: explicit presence - a scalar extension set to its zero value is set, and reads back as that value
 func c12NativeScalars() {
@@ -247,6 +292,7 @@ func H_C12_Set() {
 	} else if mk != c12MsgLegacy {
 		if mk == c12MsgV2 {
 			c12NativeScalars()
+			c12NativeRange()
 		}
 		// the real runtimes: coherence laws on a real message
 		verifAssert(err == nil, "native: SetExtension succeeds on a matching pair")
